@@ -10,8 +10,8 @@ import Mathlib.Tactic.NormNum
   * `hfin : ∀ y, FinTest.isFin y = true` — in exact arithmetic no computed value overflows (`nan2zero` only acts on
     missing inputs, which are `none`);
   * `0 < eps` — `epsilon2<scalar_t>()` is positive;
-  * the standard deviation is `Sqrt.sqrt v`; where its value matters (`standard_unit`) the hypotheses are exactly
-    `0 ≤ sqrt v`-free: only `sqrt v * sqrt v = v` at the variance `v` of the column is used, and `eps ≤ sqrt v`;
+  * the standard deviation is `Sqrt.sqrt v`; where its value matters (`standard_unit`) the only hypotheses are
+    `sqrt v * sqrt v = v` at the variance `v` of that column and `eps ≤ sqrt v`; everything else holds whatever `sqrt` returns;
   * `lo ≤ v ≤ hi` for the present values: a finite double lies within `numeric_limits::lowest()/max()`, the starting
     values of the running maximum / minimum.
 -/
@@ -211,13 +211,6 @@ theorem clamp_is_identity (hi lo : α) (xs : List (Option α)) (h2 : 2 ≤ (pres
   have h0 : 0 ≤ rawVar (accumulate hi lo xs) := div_nonneg hv (le_of_lt hpos)
   exact ⟨h0, by rw [cmax_eq_max]; exact max_eq_left h0⟩
 
-theorem sq_div_aux (a sd V : α) (h : sd * sd = V) (hsd : sd ≠ 0) :
-    a * (1 / sd) * (a * (1 / sd)) = a * a * (1 / V) := by
-  subst h; field_simp
-
-theorem mul_inv_div_aux (X d : α) (hX : X ≠ 0) (hd : d ≠ 0) : X * (1 / (X / d)) = d := by
-  field_simp
-
 /-- standardisation: when the standard deviation `sd` of the column (`sd·sd` = its unbiased variance) reaches `ε`,
     the scaled values of the samples the statistics were computed from have mean 0 and unbiased variance 1
     (`Σ z = 0`, `Σ z² = N − 1`). -/
@@ -313,46 +306,8 @@ theorem affine_upscale_same_predictor_row [FinTest α] (hfin : ∀ y : α, FinTe
           (makeScaling tm t).1 (makeScaling tm t).2 w b).1 x +
       (upscaleAffineRow ((fs.map (makeScaling fm)).map Prod.fst) ((fs.map (makeScaling fm)).map Prod.snd)
           (makeScaling tm t).1 (makeScaling tm t).2 w b).2 =
-    upscaleCell tm t (dot w (List.zipWith (scaleCell fm) fs (x.map some)) + b) := by
-  obtain ⟨htw, hup⟩ := upscaleCell_affine tm t ht (dot w (List.zipWith (scaleCell fm) fs (x.map some)) + b)
-  have hscaled : List.zipWith (scaleCell fm) fs (x.map some) =
-      List.zipWith (fun (p : α × α) xj => p.1 * xj + p.2) (fs.map (makeScaling fm)) x := by
-    rw [List.zipWith_map_right, List.zipWith_map_left]
-    congr 1
-    funext s xj
-    exact scaleCell_affine hfin fm s xj
-  rw [hup, hscaled]
-  simp only [upscaleAffineRow]
-  rw [dot_upscaled _ htw (fs.map (makeScaling fm)) w x (by simpa using hw) (by simpa using hx)]
-  field_simp
-  ring
-
-theorem predict_rows [FinTest α] (hfin : ∀ y : α, FinTest.isFin y = true)
-    (fm tm : Mode) (fs : List (Stats α)) (x : List α) (hx : x.length = fs.length) :
-    ∀ (ts : List (Stats α)) (W : List (List α)) (b : List α), (∀ t ∈ ts, t.WF) →
-      b.length = ts.length → W.length = ts.length → (∀ r ∈ W, r.length = fs.length) →
-      predict
-        ((zip3With (fun (t : Stats α) w bi => upscaleAffineRow ((fs.map (makeScaling fm)).map Prod.fst)
-          ((fs.map (makeScaling fm)).map Prod.snd) (makeScaling tm t).1 (makeScaling tm t).2 w bi) ts W b).map Prod.fst)
-        ((zip3With (fun (t : Stats α) w bi => upscaleAffineRow ((fs.map (makeScaling fm)).map Prod.fst)
-          ((fs.map (makeScaling fm)).map Prod.snd) (makeScaling tm t).1 (makeScaling tm t).2 w bi) ts W b).map Prod.snd)
-        x =
-      List.zipWith (upscaleCell tm) ts (predict W b (List.zipWith (scaleCell fm) fs (x.map some)))
-  | [], W, b, _, hb, hW, _ => by
-    cases W <;> cases b <;> simp [zip3With, predict] at *
-  | t :: ts, W, b, hts, hb, hW, hr => by
-    cases W with
-    | nil => simp at hW
-    | cons w W =>
-      cases b with
-      | nil => simp at hb
-      | cons b0 b =>
-        have ih := predict_rows hfin fm tm fs x hx ts W b (fun t' h => hts t' (by simp [h]))
-          (by simpa using hb) (by simpa using hW) (fun r h => hr r (by simp [h]))
-        have hrow := affine_upscale_same_predictor_row hfin fm tm fs t (hts t (by simp)) w x b0
-          (hr w (by simp)) hx
-        simp only [predict] at ih ⊢
-        simp only [zip3With, List.map_cons, List.zipWith_cons_cons, hrow, ih]
+    upscaleCell tm t (dot w (List.zipWith (scaleCell fm) fs (x.map some)) + b) :=
+  affine_row hfin fm tm fs t ht w x b hw hx
 
 /-- `nano::upscale(flatten_stats, flatten_scaling, targets_stats, targets_scaling, W, b)`, n-dimensional: whenever the
     call is legal (its three size asserts) it yields `(W', b')` such that for **every** finite raw input `x`
@@ -379,6 +334,23 @@ theorem affine_upscale_same_predictor [FinTest α] (hfin : ∀ y : α, FinTest.i
       simp [predict, hb, hW]
     simp [scaleRow, upscaleRow, hx, hlen]
   · cases h
+
+/-- the same with both lists of statistics computed by `make_*_stats` from arbitrary data (any columns, any enable
+    masks, any missing-value patterns, constant / single-sample / empty columns included): no hypothesis on the
+    statistics is left -/
+theorem affine_upscale_same_predictor_of_data [Sqrt α] [FinTest α] (hfin : ∀ y : α, FinTest.isFin y = true)
+    (hi lo eps : α) (heps : 0 < eps) (fm tm : Mode) (fdata tdata : List (Bool × List (Option α)))
+    (W : List (List α)) (b : List α) (W' : List (List α)) (b' : List α)
+    (h : upscaleAffine fm (fdata.map (fun d => columnStats hi lo eps d.1 d.2)) tm
+      (tdata.map (fun d => columnStats hi lo eps d.1 d.2)) W b = some (W', b'))
+    (x : List α) (hx : x.length = fdata.length) :
+    (scaleRow fm (fdata.map (fun d => columnStats hi lo eps d.1 d.2)) (x.map some)).bind
+      (fun sx => upscaleRow tm (tdata.map (fun d => columnStats hi lo eps d.1 d.2)) (predict W b sx)) =
+    some (predict W' b' x) := by
+  refine affine_upscale_same_predictor hfin fm tm _ _ ?_ W b W' b' h x (by simpa using hx)
+  intro t ht
+  obtain ⟨d, -, rfl⟩ := List.mem_map.mp ht
+  exact finalize_wf eps heps d.1 (accumulate hi lo d.2)
 
 /-- the converse guard: with mismatching sizes (where the C++ `assert`s fire) the model refuses -/
 theorem affine_upscale_guard (fm tm : Mode) (fs ts : List (Stats α)) (W : List (List α)) (b : List α)
